@@ -251,6 +251,7 @@ func TestC16_LiveBurst(t *testing.T) {
 	twins(t)
 	c := ev.New("C16", "live-burst", "exploration")
 	t.Cleanup(c.Flush)
+	t.Cleanup(func() { drainExcluded(c) })
 	c.Rule("one connection to an in-process dev-mode server: 6-12 awaited 20 KB ECHO round trips (grow the socket windows), SLEEP 40-90 ms written alone, 8 ms later ONE write of an exactly sized pipeline (65536 in 30%, 131072, j*65536+r around the points where full reads could strand bytes, 65535/65537/200000, k*65535|65536 +-3, random 60-210 KB) of ECHO/PING commands in RESP (or RESP/telnet/native mixed, or a few commands around one huge value), padded by a final ECHO to the exact size; then half-close (3/4) or wait for every reply and QUIT. Oracle: ground truth — every command answered exactly once, in order, with its own payload (independent of any twin), nothing after the last reply, server closes. Non-trivial: every case (the burst is at least 60 KB and waits behind a busy connection); distinct by (size, shape, half-close, number of commands).")
 	hangSeen = false
 	ev.Rapid("live-burst", ev.Pick(36, 400))
@@ -332,6 +333,7 @@ func serveLoop(reads [][]byte) (res parseResult, parkedMax int) {
 func TestC16_SegInputStream(t *testing.T) {
 	c := ev.New("C16", "seg-inputstream", "exploration")
 	t.Cleanup(c.Flush)
+	t.Cleanup(func() { drainExcluded(c) })
 	c.Rule("server.InputStream and PipelineReader driven in-package exactly as netServe's read loop does (Begin, ReadMessages over a bytes.Buffer of the joined bytes, End with the unread rest) for streams of 70-400 KB: 1-4 socket reads LARGER than the reader's 0xFFFF-byte packet (65536, 65537, 70000, 100000, 131072: bytes get parked in InputStream) followed by the rest in reads of at most 4 KB; oracle: the messages delivered equal the generator's ground truth (nothing lost, duplicated or reordered while bytes are parked). Non-trivial: bytes were parked at least once; distinct by (big read sizes, parked maximum bucket, protocols). Note: production netServe reads at most 0xFFFF bytes, so InputStream never parks there; that coupling is what live-burst guards.")
 	ev.Rapid("seg-inputstream", ev.Pick(60, 800))
 	rapid.Check(t, func(rt *rapid.T) {
